@@ -211,7 +211,8 @@ def groups(tier: str):
             if nvars(s) > 8:
                 continue
             add(s, 3, 1800.0)
-            add(s[:2] + "C" + s[2:], 3, 1800.0)
+            if s.count("O") >= 3:
+                add(s[:2] + "C" + s[2:], 3, 1800.0)  # an intermediate cycle detection where cycles can exist
         for ops in itertools.product("TO", repeat=3):
             s = "".join(ops)
             add(s, 4, 1800.0)
@@ -253,7 +254,7 @@ def meta(tier):
             "quick": "all histories of <=3 operations from {two-way edge, one-way edge, mark verified} with every placement of "
                      "intermediate cycle detections, all label arguments over 3 labels; plus four one-way edges (OOOO, OOCOO, "
                      "VOOO, OOOV); answers for all label pairs checked after every cycle detection",
-            "thorough": "all histories of <=4 operations over 3 labels (no / one intermediate cycle detection), 3 edges (+1 mark) over 4 labels",
+            "thorough": "all histories of <=4 operations over 3 labels (with one intermediate cycle detection when >=3 one-way edges), 3 edges (+1 mark) over 4 labels",
         }[tier],
         "outside": ["longer histories, more labels", "queries made before a cycle detection (not promised by the property)"],
         "stubs": [],
